@@ -51,3 +51,136 @@ def c07(doc, fails1, fails2, err1, code1):
     if list(fails1) != list(fails2):
         out.append({"kind": "not-repeatable", "detail": {"first": [list(f) for f in fails1], "second": [list(f) for f in fails2]}})
     return out
+
+
+def has_write_ops(log, path):
+    """any create/write/remove/copy touching `path` or any temp file in a VFS log"""
+    for op in log:
+        if op[0] in ("open-w", "write", "remove", "copy", "tmp", "replace"):
+            return True
+    return False
+
+
+def c09(d0, d1, d2, o1, o2, o3_fails, fixable_ids):
+    """d0 original, d1 after first fix, d2 after second fix; o3_fails: scan of d1"""
+    out = []
+    if mentions(o1.err, "Error") or o1.code == 1:
+        return out  # the first run failed (C01/C15 territory): nothing to converge
+    if not (d2 == d1):
+        out.append({"kind": "second-fix-changes-file", "detail": {"after_first": d1, "after_second": d2}})
+    if o2.fixed or o2.code == 3:
+        out.append({"kind": "second-fix-reports-fixed", "detail": {"code": o2.code, "after_first": d1}})
+    left = [list(f) for f in o3_fails if f[2].lower() in fixable_ids]
+    if left:
+        out.append({"kind": "fixable-failure-left", "detail": {"after_first": d1, "left": left}})
+    return out
+
+
+def c10(d0, d_after_scan, scan_obs, d1, fix_obs, fixable_ids, path, scheme_minimal=False):
+    out = []
+    # scan is read-only
+    if not (d_after_scan == d0):
+        out.append({"kind": "scan-modified-file", "detail": {"after": d_after_scan}})
+    if has_write_ops([op for op in scan_obs.log if op[0] != "open-r"], path):
+        out.append({"kind": "scan-wrote", "detail": {"log": [list(x) for x in scan_obs.log][:8]}})
+    extra = [n for n, _ in scan_obs.files if n != path]
+    if extra:
+        out.append({"kind": "scan-left-files", "detail": {"files": extra}})
+    if mentions(fix_obs.err, "Error") or fix_obs.code == 1:
+        return out
+    changed = not (d1 == d0)
+    announced = path in fix_obs.fixed
+    if changed != announced:
+        out.append({"kind": "changed-vs-announced", "detail": {"changed": changed, "announced": announced, "after": d1}})
+    want_code = (0 if scheme_minimal else 3) if changed else None
+    if changed and fix_obs.code != want_code:
+        out.append({"kind": "changed-but-exit-code", "detail": {"code": fix_obs.code, "after": d1}})
+    if (not changed) and fix_obs.code == 3:
+        out.append({"kind": "unchanged-but-fixed-exit-code", "detail": {"code": fix_obs.code}})
+    if not mentions(scan_obs.err, "Error"):
+        fixable_seen = [f for f in scan_obs.fail_tuples() if f[2].lower() in fixable_ids]
+        if not fixable_seen and changed:
+            out.append({"kind": "changed-without-fixable-failure", "detail": {"after": d1, "scan": [list(f) for f in scan_obs.fail_tuples()]}})
+    extra = [n for n, _ in fix_obs.files if n != path]
+    if extra:
+        out.append({"kind": "fix-left-files", "detail": {"files": extra}})
+    return out
+
+
+def c12(res, ids, default_ids):
+    """res: selection -> sorted bag of (line, col, RULE, extra) or None (scan failed)."""
+    out = []
+    if any(res.get(k) is None for k in res):
+        return out  # a scan failed internally: C07/C01 territory
+    singles = {rid: res["only:" + rid] for rid in ids}
+    for rid in ids:
+        foreign = [list(x) for x in singles[rid] if x[2].lower() != rid]
+        if foreign:
+            out.append({"kind": "single-rule-reports-other-rule", "detail": {"rule": rid, "foreign": foreign}})
+    union_all = sorted(x for rid in ids for x in singles[rid])
+    if res["all"] != union_all:
+        out.append({"kind": "all-differs-from-union", "detail": _bagdiff(res["all"], union_all)})
+    union_def = sorted(x for rid in default_ids for x in singles[rid])
+    if res["default"] != union_def:
+        out.append({"kind": "default-differs-from-union", "detail": _bagdiff(res["default"], union_def)})
+    for rid in default_ids:
+        k = "minus:" + rid
+        if k in res:
+            want = sorted(x for x in res["default"] if x[2].lower() != rid)
+            if res[k] != want:
+                out.append({"kind": "disabling-one-rule-changes-others", "detail": dict(_bagdiff(res[k], want), rule=rid)})
+    return out
+
+
+def _bagdiff(got, want):
+    g = [list(x) for x in got if x not in want]
+    w = [list(x) for x in want if x not in got]
+    return {"only_in_combined_run": g[:6], "only_in_single_runs": w[:6]}
+
+
+def c14(log, docs_in_order, token_lists, enabled=True):
+    """log: recorder entries; docs_in_order: the source text of each file in processing
+    order; token_lists: for each file the token list obtained directly from the parser (pragma
+    token removed), or None when the file does not parse (then the file is skipped).
+    Tokens are compared by str(); lines by exact text."""
+    out = []
+    if not enabled:
+        if log:
+            out.append({"kind": "disabled-rule-called", "detail": {"calls": len(log)}})
+        return out
+    i = 0
+    n = len(log)
+    for fi, (doc, toks) in enumerate(zip(docs_in_order, token_lists)):
+        if toks is None:
+            return out  # parse failure: C01/C15 territory, stop comparing
+        if i >= n or log[i][0] != "start":
+            out.append({"kind": "no-start", "detail": {"file": fi, "at": i}})
+            return out
+        i += 1
+        for t in toks:
+            if i >= n or log[i][0] != "token":
+                out.append({"kind": "token-missing", "detail": {"file": fi, "at": i, "expected": str(t)}})
+                return out
+            if str(log[i][1]) != str(t):
+                out.append({"kind": "token-differs", "detail": {"file": fi, "at": i, "expected": str(t), "got": str(log[i][1])}})
+                return out
+            i += 1
+        lines = split_lines(doc)
+        for li, text in enumerate(lines):
+            if i >= n or log[i][0] != "line":
+                out.append({"kind": "line-missing", "detail": {"file": fi, "line": li + 1, "got": log[i][0] if i < n else None}})
+                return out
+            if log[i][1] != li + 1:
+                out.append({"kind": "line-number-wrong", "detail": {"file": fi, "expected": li + 1, "got": log[i][1]}})
+                return out
+            if not (log[i][2] == text):
+                out.append({"kind": "line-text-differs", "detail": {"file": fi, "line": li + 1, "expected": text, "got": log[i][2]}})
+                return out
+            i += 1
+        if i >= n or log[i][0] != "done":
+            out.append({"kind": "no-completed-file", "detail": {"file": fi, "got": log[i][0] if i < n else None}})
+            return out
+        i += 1
+    if i != n:
+        out.append({"kind": "extra-calls", "detail": {"extra": n - i, "first": log[i][0]}})
+    return out
